@@ -575,6 +575,9 @@ fn judged_read(run: &Run, st: &mut State, t: usize, sidx: u8, at: usize, selftes
     }
     let o = read_outcome(&settings, &k.format, &k.bytes);
     run.count(&format!("read_outcome:{}", o.state()));
+    if std::env::var("VERIF_DEBUG").is_ok() {
+        eprintln!("read #{t} settings {sidx} at {at}: {}", o.short());
+    }
     if let Outcome::Panic(p) = &o {
         run.count(&format!("panic:{p}"));
     }
@@ -593,6 +596,10 @@ fn judged_read(run: &Run, st: &mut State, t: usize, sidx: u8, at: usize, selftes
 
 fn keep(run: &Run, st: &mut State, format: String, bytes: Vec<u8>, how: String, multi_merkle: bool) {
     run.count(&format!("kept:{}", how.split(':').next().unwrap_or("")));
+    if std::env::var("VERIF_DEBUG").is_ok() {
+        let brob = sdk::find_sub(&bytes, b"brob").is_some();
+        eprintln!("kept #{} {how} {format} {} bytes brob={brob} boxes={:?}", st.kept.len(), bytes.len(), if format.contains("mp4") { top_boxes(&bytes).iter().map(|b| format!("{}:{}", b.0, b.2 - b.1)).collect::<Vec<_>>() } else { vec![] });
+    }
     if st.kept.len() < 14 {
         st.kept.push(Kept { bytes, format, how, multi_merkle, reads: BTreeMap::new() });
     }
